@@ -206,7 +206,8 @@ CLAIMS['C15'] = dict(
        'core per direction; 2**(p/d) once per core; every reported value is get(Y, i) of the argument at the reported index; '
        '(i_min, y_min, i_max, y_max) ordered by the comparison on every return path; the candidates are re-ordered by the argsort '
        'permutation unconditionally at every step; the normalised Chebyshev basis of the functional variant is sqrt(1/2), T_1, '
-       'T_2, ... as polynomials; optima_qtt rejections and back-mapping with the checked exponent.',
+       'T_2, ... as polynomials; the end point appended to the candidate list of the one-dimensional maximiser is the one tested '
+       'for absence; optima_qtt rejections and back-mapping with the checked exponent.',
   note='Not decided: exactness under a full beam / rank 1, numerical range of candidate norms (overflow of squares), '
        'optima_tt_maxvol.')
 CLAIMS['C17'] = dict(
